@@ -196,6 +196,16 @@ def observe_slots(path, names):
       ("zero",)            the slot is a link-time constant 0
       ("odd", text)        anything else
     """
+    return observe_named_slots(path, [(n, "slot_" + n, n) for n in names])
+
+
+SLOT_ABSENT = ("odd", "slot symbol count 0")
+
+
+def observe_named_slots(path, slots):
+    """observe_slots for slots that are not called slot_<name>: slots = [(key, slot symbol, name of
+    the referenced symbol)] -> {key: observation}. A slot whose symbol is not defined in the output
+    (its section was discarded) reads SLOT_ABSENT."""
     e = elfread.Elf(path)
     symtab = e.symbols(".symtab")
     dynsym = e.symbols(".dynsym") if e.dynamic() else []
@@ -211,38 +221,38 @@ def observe_slots(path, names):
                 copies.add(off)
         relr = set(dr["relr"])
     out = {}
-    for n in names:
-        slots = [s for s in byname.get("slot_" + n, []) if s.shndx != 0]
-        if len(slots) != 1:
-            out[n] = ("odd", "slot symbol count %d" % len(slots))
+    for key, slotsym, n in slots:
+        found = [s for s in byname.get(slotsym, []) if s.shndx != 0]
+        if len(found) != 1:
+            out[key] = ("odd", "slot symbol count %d" % len(found))
             continue
-        slot = slots[0].value
+        slot = found[0].value
         if slot in relocs:
             typ, si, add = relocs[slot]
             if typ == R_X86_64_RELATIVE:
                 target = add
             elif typ in (R_X86_64_64, R_X86_64_GLOB_DAT):
                 if si >= len(dynsym):
-                    out[n] = ("odd", "dynamic symbol index %d out of range" % si)
+                    out[key] = ("odd", "dynamic symbol index %d out of range" % si)
                     continue
                 ds = dynsym[si]
                 if ds.name != n:
-                    out[n] = ("odd", "slot relocated against %r" % ds.name)
+                    out[key] = ("odd", "slot relocated against %r" % ds.name)
                     continue
                 if ds.shndx == 0:
-                    out[n] = ("dynundef", ds.bind == elfread.STB_WEAK)
+                    out[key] = ("dynundef", ds.bind == elfread.STB_WEAK)
                     continue
                 target = ds.value + add
             else:
-                out[n] = ("odd", "dynamic relocation type %d on the slot" % typ)
+                out[key] = ("odd", "dynamic relocation type %d on the slot" % typ)
                 continue
         else:
             target = e.read_u64(slot)
             if target == 0:
-                out[n] = ("zero",)
+                out[key] = ("zero",)
                 continue
         if target in copies:
-            out[n] = ("dynundef", False)
+            out[key] = ("dynundef", False)
             continue
         marker = None
         for width in (8, 4, 1):     # a 4-byte common may be the last thing in its segment
@@ -252,14 +262,14 @@ def observe_slots(path, names):
             except elfread.ElfError:
                 pass
         if marker is None:
-            out[n] = ("odd", "target %#x not mapped" % target)
+            out[key] = ("odd", "target %#x not mapped" % target)
             continue
         if marker:
-            out[n] = ("m", marker)
+            out[key] = ("m", marker)
         else:
             sizes = sorted({s.size for s in byname.get(n, []) + [d for d in dynsym if d.name == n]
                             if s.shndx != 0 and s.value == target})
-            out[n] = ("c", sizes[0] if len(sizes) == 1 else tuple(sizes))
+            out[key] = ("c", sizes[0] if len(sizes) == 1 else tuple(sizes))
     return out
 
 
